@@ -31,6 +31,7 @@ type leanDef struct {
 	text string
 	deps map[string]bool
 	pos  token.Pos
+	mod  string // Lean module the definition is emitted into
 }
 
 var defsByPkg = map[string][]*leanDef{}
@@ -317,14 +318,21 @@ func translateFuncCase(fi *funcInfo, chk bool, ts *ast.TypeSwitchStmt, cc *ast.C
 	if chk {
 		doc = fmt.Sprintf("/-- checked variant of `%s`: no run-time panic on this input. -/\n", what)
 	}
+	if fi.twin {
+		doc = fmt.Sprintf("/-- limb twin of `%s` (%s): an Element is the list of its Montgomery limbs. -/\n", strings.TrimSuffix(what, twinSuffix), filepath.Base(fset.Position(fi.decl.Pos()).Filename))
+	}
 	d := &leanDef{name: lname, text: doc + head + "\n" + indent(body, 1) + "\n", deps: t.deps, pos: fi.decl.Pos()}
 	mk := modKey(fi.pkgdir, limbMode[fi.key])
+	if fi.twin {
+		mk = fi.pkgdir + "#twin"
+	}
 	if chk {
 		mk += "#chk"
 	}
 	if curOwn != "" {
 		mk = "own:" + curOwn
 	}
+	d.mod = moduleOf(mk)
 	defsByPkg[mk] = append(defsByPkg[mk], d)
 	defByName[lname] = d
 }
@@ -345,6 +353,7 @@ func translateGlobal(k string) string {
 	if curOwn != "" {
 		gk = "own:" + curOwn
 	}
+	d.mod = moduleOf(gk)
 	defsByPkg[gk] = append(defsByPkg[gk], d)
 	defByName[lean] = d
 	return lean
@@ -446,6 +455,7 @@ func main() {
 			}
 		}
 	}
+	buildTwins()
 	// write summaries to a fixed point
 	for round := 0; round < 20; round++ {
 		ch := false
@@ -474,6 +484,10 @@ func main() {
 			continue
 		}
 		translateFunc(fi)
+		if fi.twin {
+			// limb twins have no checked variant and are not part of GoIndex (listed in GoIndexLimb)
+			continue
+		}
 		translateFuncChk(fi)
 		translated = append(translated, k)
 	}
@@ -550,6 +564,7 @@ func main() {
 		b.WriteString("end I3.Gen.Go\n")
 		writeIfChanged(filepath.Join(out, limbModule[pd]+".lean"), b.String())
 	}
+	emitTwins(out)
 	var b strings.Builder
 	b.WriteString("-- GENERATED by tools/gengo (T6) — do not edit\nnamespace I3.Gen.Go\n")
 	b.WriteString("def translatedFunctions : List String := [\n")
@@ -605,7 +620,7 @@ func main() {
 			die("package-level variable %s has an initialiser, is modified by init() and is read by translated code", k)
 		}
 	}
-	fmt.Printf("gen_go: %d functions translated, %d skipped, %d package-level values\n", len(translated), len(skipped), len(globalDefs))
+	fmt.Printf("gen_go: %d functions translated, %d skipped, %d package-level values, %d limb twins\n", len(translated), len(skipped), len(globalDefs), len(twinKeys))
 }
 
 func wanted(fi *funcInfo) bool {
@@ -675,4 +690,70 @@ func writeIfChanged(path, content string) {
 	if err := os.WriteFile(path, []byte(content), 0o644); err != nil {
 		die("write %s: %v", path, err)
 	}
+}
+
+// emitTwins: one module per package that has limb twins (imports computed from the definitions referenced), and the
+// list of twins (GoIndexLimb)
+func emitTwins(out string) {
+	var mods []string
+	for _, pd := range pkgOrder {
+		ds := defsByPkg[pd+"#twin"]
+		if len(ds) == 0 {
+			continue
+		}
+		mod := twinModName(pd)
+		mods = append(mods, mod)
+		imports := map[string]bool{}
+		needExtLimb := false
+		for _, d := range ds {
+			for n := range d.deps {
+				dd, ok := defByName[n]
+				if !ok {
+					die("limb twin %s refers to %s, which is not a generated definition", d.name, n)
+				}
+				if dd.mod != mod {
+					imports[dd.mod] = true
+				}
+			}
+			for _, g := range twinGlobalMap {
+				if strings.Contains(d.text, g) {
+					needExtLimb = true
+				}
+			}
+		}
+		var ims []string
+		for m := range imports {
+			ims = append(ims, m)
+		}
+		sort.Strings(ims)
+		var b strings.Builder
+		b.WriteString("-- GENERATED by tools/gengo (T6, limb twin) from /repo/" + pd + " — do not edit\n")
+		b.WriteString("import I3.Exec.Go\nimport I3.Exec.GoExt\n")
+		if needExtLimb {
+			b.WriteString("import I3.Exec.GoExtLimb\n")
+		}
+		for _, im := range ims {
+			b.WriteString("import I3.Gen." + im + "\n")
+		}
+		b.WriteString("set_option linter.unusedVariables false\nset_option maxRecDepth 4096\nnamespace I3.Gen.Go\n\n")
+		for _, d := range topo(ds) {
+			b.WriteString(d.text + "\n")
+		}
+		b.WriteString("end I3.Gen.Go\n")
+		writeIfChanged(filepath.Join(out, mod+".lean"), b.String())
+	}
+	var b strings.Builder
+	b.WriteString("-- GENERATED by tools/gengo (T6, limb twins) — do not edit\nnamespace I3.Gen.Go\n")
+	b.WriteString("/-- (Go function, Lean name of its limb twin) -/\ndef limbTwinFunctions : List (String × String) := [\n")
+	ks := append([]string{}, twinKeys...)
+	sort.Strings(ks)
+	for i, k := range ks {
+		sep := ","
+		if i == len(ks)-1 {
+			sep = ""
+		}
+		b.WriteString(fmt.Sprintf("  (%q, %q)%s\n", k, funcs[k+twinSuffix].lean, sep))
+	}
+	b.WriteString("]\nend I3.Gen.Go\n")
+	writeIfChanged(filepath.Join(out, "GoIndexLimb.lean"), b.String())
 }
